@@ -39,10 +39,10 @@ MECHANISMS = [
 REQUIRED_MONITORS = ['populate_vs_model', 'partial_vs_full', 'index_vs_model', 'structure_vs_model', 'unselected_empty', 'sample_definition',
                      'contract:Slice.indices', 'contract:Slice.count', 'contract:FrameArray.init_arrays_partial',
                      'contract:RP66V1FrameChannel.seek', 'contract:RP66V1FrameChannel.read']
-MIN_NONTRIVIAL = {'quick': 250, 'thorough': 18000}
+MIN_NONTRIVIAL = {'quick': 1200, 'thorough': 18000}
 TIMEOUT_S = {'quick': 300, 'thorough': 3000}
 NSHARDS = 16
-FILES = {'quick': 40, 'thorough': 3000}
+FILES = {'quick': 200, 'thorough': 3000}
 MAX_FRAMES = {'quick': 40, 'thorough': 60}
 CAP = 25
 
